@@ -1,6 +1,7 @@
 import RimeModel.Basic.Hex
 import RimeModel.C09.Model
 import RimeModel.C09.Prism
+import RimeModel.C09.Regex
 /-! line protocol for C09 (the lines harness/c09_harness.cc prints before the tab; the model's
 observation must equal what the harness prints after the tab).  Stateful: one case at a time.
 
@@ -9,7 +10,10 @@ observation must equal what the harness prints after the tab).  Stateful: one ca
 * `rule <formula> <ok:1|R|N> <n> (<key> <0|1|E> <result>)×n`
                                             → `kind=<name|null> del=<b|-> add=<b|-> round=<ok|threw|noparse> mod=<b> script=<dump>`
   one-calculation `Projection` applied to the step script; the rows are the recorded outcome of the
-  real `Calculation::Apply` on each key of the script (in key order, up to the first throw)
+  real `Calculation::Apply` on each key of the script (in key order, up to the first throw).  They ARE the
+  rule for xlit/xform/derive/fuzz/abbrev; for `erase` with a pattern inside the modelled regex fragment
+  (RimeModel/C09/Regex.lean) the model computes `Erasion::Apply` itself on every ASCII spelling (whole-string
+  `regex_match`) and the recorded rows are only required to exist
 * `apply`                                   → `loaded=<b> modified=<b> script=<dump>`  whole projection on the fresh script
 * `glue`                                    → `script=<dump>`   `if (!modified) script.clear()` of DictCompiler::BuildPrism
 * `merge <key> <type> <cred> <tips> <n> (<str> <type> <cred> <tips>)×n` → `script=<dump>`  `Script::Merge` on the current script
@@ -88,6 +92,10 @@ def missingRow (tbl : List (Bytes × Outcome)) : List Bytes → Option Bytes
     | some .threw => none
     | some _ => missingRow tbl ks
 
+/-- the pattern of an `erase` formula when it lies in the fragment the model gives a meaning to -/
+def erasePattern (kind : Kind) (args : List Bytes) : Option Re :=
+  if kind == .erase then parseRegex (args.getD 1 []) else none
+
 def doRule (st : St) (formula ok : String) (rows : List String) : St × String :=
   match Hex.decode formula, readRows rows with
   | some f, some tbl =>
@@ -103,11 +111,14 @@ def doRule (st : St) (formula ok : String) (rows : List String) : St × String :
       if consistent then
         ({ st with rules := st.rules ++ [none] }, s!"kind=null del=- add=- round=noparse mod=0 script={showScript st.step}")
       else (st, "model-parse-disagrees")
-    | some (kind, _) =>
+    | some (kind, args) =>
       match missingRow tbl st.step.keys with
       | some k => (st, s!"missing-outcome {Hex.encode k}")
       | none =>
-        let r : Rule := { kind := kind, run := fun s => (tbl.lookup s).getD .threw }
+        let recorded : Bytes → Outcome := fun s => (tbl.lookup s).getD .threw
+        let r : Rule := { kind := kind, run := match erasePattern kind args with
+          | some re => fun s => if s.all (fun c => c.toNat < 128) then Erasion.run re s else recorded s
+          | none => recorded }
         let threw := (round r st.step).isNone
         let res := Projection.apply [r] st.step
         ({ st with rules := st.rules ++ [some r], step := res.2 },
